@@ -157,3 +157,29 @@ Proof.
   { destruct H as [->|H]; [reflexivity|]. destruct (triple st); [apply orb_true_r|congruence]. }
   rewrite E. reflexivity.
 Qed.
+
+(* ---- the printer side -------------------------------------------------------------------------------- *)
+Theorem flush_one_line_per_entry ind : forall ls st margin, length (flush_lines ind ls st margin) = length ls.
+Proof.
+  induction ls as [|l r IH]; intros st margin; [reflexivity|]. cbn [flush_lines]. unfold p_in_multi_line.
+  destruct (p_backslashed st || p_triple st); cbn [length]; rewrite IH; reflexivity.
+Qed.
+
+Theorem flush_inside_multiline_untouched ind l rest st margin :
+  p_backslashed st = true \/ p_triple st = true ->
+  flush_lines ind (l :: rest) st margin = l :: flush_lines ind rest (snd (p_in_multi_line st l)) margin.
+Proof.
+  intros H. cbn [flush_lines]. unfold p_in_multi_line. cbn [snd].
+  assert (E : p_backslashed st || p_triple st = true) by (destruct H as [-> | ->]; [reflexivity|apply orb_true_r]).
+  rewrite E. reflexivity.
+Qed.
+
+(* a simple line that carries the margin gets exactly the indentation in its place *)
+Theorem flush_replaces_margin ind m body rest :
+  simple (m ++ body) -> p_in_multi_line p0 (m ++ body) = (false, p0) ->
+  flush_lines ind ((m ++ body) :: rest) p0 (Some m) =
+    (match m with [] => ind ++ body | _ => ind ++ body end) :: flush_lines ind rest p0 (Some m).
+Proof.
+  intros Hs Hp. cbn [flush_lines]. rewrite Hp. rewrite (simple_expandtabs _ Hs 0). f_equal.
+  unfold indent_line. destruct m as [|c m']; [reflexivity|]. rewrite strip_prefix_app. reflexivity.
+Qed.
